@@ -197,16 +197,16 @@ def mk_sched(pid, title, text, need):
                                   {"harness": "tsan_pass", "args": [], "share": 0.2, "env": {"TSAN_OPTIONS": "halt_on_error=1:exitcode=66:report_signal_unsafe=0"}}],
         "level": "model_checking", "engine": "E3",
         "technique": "stateless model checking of the implementation: exhaustive preemption-bounded schedule exploration under a controlled scheduler (iterative context bounding), plus exhaustive trace-state-pruned exploration at critical-section granularity for 4 threads",
-        "rule": "harnesses H1-H7 (2-3 threads, 1-4 operations each: racing first loads of one name, crossing orders on two names, failing loads, fixed/UTC names, loads mixed with lookups on the shared zone, lookups on a pre-loaded zone): every schedule with at most 3 (quick) / 5 (thorough) preemptions (H7: 2 / 3), points at every lock, unlock, atomic load/store, static guard, factory entry/exit and first Read; harnesses H8-* (4 threads, one load each): all interleavings at lock/factory/thread-end granularity, pruned by trace-equivalence state hash; every complete execution is judged; distinct_nontrivial = number of (harness, preemption count) classes and distinct observation vectors seen",
+        "rule": "harnesses H1-H7 (2-3 threads, 1-4 operations each: racing first loads of one name, crossing orders on two names, failing loads, fixed/UTC names, loads mixed with lookups on the shared zone, lookups on a pre-loaded zone): every schedule with at most 3 (quick) / 5 (thorough) preemptions (H7: 2 / 3), points at every lock, unlock, atomic load/store, static guard, factory entry/exit and first Read; harnesses H8-* (4 threads, one load each): all interleavings at lock/factory/thread-end granularity, pruned by trace-equivalence state hash; cold-start variants of H1/H4/H5/H5b/H5c: one fresh process per execution so that the function-local statics (UTC impl, both mutexes) are initialised under the explored schedule, bound 2 (3) for H1/H5/H5c and 1 (2) for the three-thread H4/H5b; every complete execution is judged; distinct_nontrivial = number of (harness, preemption count) classes and distinct observation vectors seen",
         "design_ref": "DESIGN.md 3/" + pid, "text": text, "level_note": E3_NOTE,
-        "assumptions": ["sequential consistency at scheduling-point granularity (relaxed atomics: two independent words, see DESIGN.md C13 memory-order scope)", "every execution starts from an emptied name cache (ClearTimeZoneMapTestOnly) with warm function-local statics"],
+        "assumptions": ["sequential consistency at scheduling-point granularity (relaxed atomics: two independent words, see DESIGN.md C13 memory-order scope)", "warm harnesses start every execution from an emptied name cache (ClearTimeZoneMapTestOnly) with initialised function-local statics; cold harnesses run every execution in a fresh process"],
         "vacuity": vac, "budget": {"quick": 300, "thorough": 3000},
     }
 
 
 CHECKS["C13"] = mk_sched("C13", "concurrent loading and use is schedule-independent",
     "Every explored schedule is a real execution of the library: no deadlock, all time_zone values for one name compare equal (also with a later sequential re-load), distinct names never share an identity, and every return value / lookup / transition / format / parse result equals the single-threaded run of the same operations.",
-    ["C13:H1:preemptions=1", "C13:H1:preemptions=3", "C13:H3", "C13:H6", "C13:H8-AAAA:coarse"])
+    ["C13:H1:preemptions=1", "C13:H1:preemptions=3", "C13:H3", "C13:H6", "C13:H8-AAAA:coarse", "C13:H1:cold", "C13:H5:cold"])
 CHECKS["C20"] = mk_sched("C20", "custom factory: once per name, serially, on the caller's thread",
     "Same exploration as C13; the verdict is the predicate over the factory log of each execution (thread id = calling thread; at most one invocation per name including later repeats; no two invocations overlapping - the factory yields while inside; never for UTC / fixed-offset names).",
     ["C13:H1:preemptions=1", "C13:H2", "C13:H4", "C13:H5", "C13:H8-AABX:coarse"])
@@ -297,7 +297,7 @@ CHECKS["C18"] = mk_simple("C18", "subsecond", "sub-second time points floor towa
     "Trusted base: ref_civil.h; parse into sub-second targets near their limits is excluded (documented TODO #199; the property restricts itself to whole seconds or coarser).",
     min_eval=1000000)
 CHECKS["C19"] = mk_simple("C19", "env_enum", "zone names resolve as documented; failures fall back to UTC",
-    "complete product TZDIR in {unset, empty, valid dir, missing dir, valid dir with trailing /} x TZ in {unset, empty, X, :X, ::X, localtime, :localtime, invalid, absolute path, UTC, ':', fixed name} x LOCALTIME in {unset, valid path, invalid path, empty, relative name} = 300 environments, each in a fresh exec of the probe; in each: 29 names (relative valid/missing, absolute valid/missing, file:-prefixed, empty, a directory, 0-byte file, files truncated at each structural boundary, garbage, a leap-second file, ':'-prefixed, UTC, UTC0, fixed names, case/slash variants) + local_time_zone() + default-constructed zone; class = call kind x expected outcome",
+    "complete product TZDIR in {unset, empty, valid dir, missing dir, valid dir with trailing /} x TZ in {unset, empty, X, :X, ::X, localtime, :localtime, invalid, absolute path, UTC, ':', fixed name} x LOCALTIME in {unset, valid path, invalid path, empty, relative name} = 300 environments, each in a fresh exec of the probe; in each: 29 names + every truncation of two zone files within their footer region (relative valid/missing, absolute valid/missing, file:-prefixed, empty, a directory, 0-byte file, files truncated at each structural boundary, garbage, a leap-second file, ':'-prefixed, UTC, UTC0, fixed names, case/slash variants) + local_time_zone() + default-constructed zone; class = call kind x expected outcome",
     "Every (environment, name) pair is resolved by a reference resolver written from the header comments (name -> path -> reference TZif reader); returned bool, UTC identity, name() and the offsets/abbreviations at three instants must match; a second load in the same process must agree.",
     ["C19:load:zone", "C19:load:fallback-utc", "C19:load:utc", "C19:local:zone", "C19:local:fallback-utc"],
     "Trusted base: the reference resolver (40 lines) and reference TZif reader; what /etc/localtime and /usr/share/zoneinfo are on the machine is read, not assumed. Runs as root, so permission-denied files are not covered.",
